@@ -33,6 +33,7 @@ HOOK_COMMITS = [
     "4dd7ca9 verif hook: HeaderType::verif_category exposes the private sort category",
     "276de69 verif hook: App::verif_default_subapp exposes the registered routes",
     "e940eba verif hook: thread pool event tracer (thread::verif)",
+    "f2bf293 verif hook: async WebSocket app event tracer (humphrey_ws::verif::app_event)",
     "f5dee11 verif hook: App::run event tracer (thread::verif::AppEvent) in app.rs and tokio/app.rs",
     "bcab896 verif hook: clock override for the file cache and sessions, cache constructor/state access, verify_connection export",
 ]
